@@ -6,6 +6,17 @@ import os
 from vc.symexec import Unsupported
 
 
+def optional_parts(*specs):
+    """[("_assembly", "p_assembly"), ...] -> the part functions whose helper module exists under props/ (a part under construction
+    is wired as soon as its file is there)"""
+    out = []
+    here = os.path.dirname(os.path.abspath(__file__))
+    for mod, fn in specs:
+        if os.path.exists(os.path.join(here, mod + ".py")):
+            out.append(getattr(importlib.import_module("props." + mod), fn))
+    return out
+
+
 def run_property(ctx, level, explanation, p_parts=(), b_modules=(), assumptions=(), trusted=()):
     ctx.assumptions += list(assumptions)
     ctx.trusted += list(trusted)
